@@ -56,3 +56,5 @@ CLIPOPS (Vec3, algo3, "Box3")
 CLIPOPS (Vec4, algo4, "Box4")
 EXTRACT_OPT ("C13Algo", algo3_closestOn, "Box3.closestPointOnBox", symns::Opts ().paths (5000),
              { INV (Vec3, p); INB (Vec3, b); c.out (closestPointOnBox (p, b)); })
+// Vec3 * Matrix44 with homogeneous divide, as used on the eight corners by the projective path of transform()
+EXTRACT ("C13Algo", algo_vecTimesM44, "BoxAlgo.vecTimesM44", { INV (Vec3, v); auto m = c.template in<Matrix44<T>> ("m"); c.out (v * m); })
